@@ -12,6 +12,10 @@ CONSTANTS
     MaxQ = 2
     InsertFirst = FALSE
     WithHold = TRUE
+    MaxLen = 9
+    BigOn = 3
+    ErrReadNeedsReply = TRUE
+    WithFault = TRUE
     EmptyOn = 1
     Hist = FALSE
     Depth = 150
